@@ -9,8 +9,10 @@ FNSCOPE = 'anno.getanno(fn, annos.NodeAnno.ARGS_AND_BODY_SCOPE)'
 PURE = {'malt.pyct.anno.hasanno': 'bool', 'malt.pyct.anno.getanno': 'Any'}
 
 # closure term: names read by a reaching, non-lambda local function and not bound by it
-CLOSURE = ('exists(lambda fn: fn in %s and not isinstance(fn, Lambda) and e in %s.read and e not in %s.bound)'
-           % (FNS, FNSCOPE, FNSCOPE))
+# (property C07: "... or by a local function that closes over it ... in particular for variables a nested
+#  function declares nonlocal": nonlocal names are in the function's `bound` set but are not its locals)
+CLOSURE = ('exists(lambda fn: fn in %s and not isinstance(fn, Lambda) and e in %s.read and '
+           '(e not in %s.bound or e in %s.nonlocals))' % (FNS, FNSCOPE, FNSCOPE, FNSCOPE))
 
 # the liveness equation of one node, over the current in_/out maps (spec macro LiveEq(self, node))
 OUT_EQ = 'forall(lambda e: (e in self.out[node]) == exists(lambda s: s in node.next and e in self.in_[s], "Node"))'
@@ -56,9 +58,10 @@ def register(w):
           1: dict(modifies=['live_in'],
                   inv=['forall(lambda e: (e in live_in) == (pre(e in live_in) or '
                        'exists(lambda fn: fn in _done and not isinstance(fn, Lambda) and e in %s.read '
-                       'and e not in %s.bound)))' % (FNSCOPE, FNSCOPE),
+                       'and (e not in %s.bound or e in %s.nonlocals))))' % (FNSCOPE, FNSCOPE, FNSCOPE),
                        # aliasing hints (proved like any other invariant)
-                       'forall(lambda fn: %s.read is not live_in and %s.bound is not live_in)' % (FNSCOPE, FNSCOPE),
+                       'forall(lambda fn: %s.read is not live_in and %s.bound is not live_in and '
+                       '%s.nonlocals is not live_in)' % (FNSCOPE, FNSCOPE, FNSCOPE),
                        'fresh(live_in)']),
           2: dict(modifies=['live_out'],
                   inv=['forall(lambda e: (e in live_out) == exists(lambda s: s in _done and e in self.in_[s], "Node"))']),
@@ -103,7 +106,7 @@ def register(w):
           'forall(lambda a, b: (b in a.next) == old(b in a.next) and (b in a.prev) == old(b in a.prev), "Node", "Node")',
           'forall(lambda x, e: implies(not fresh(x), (e in x.read) == old(e in x.read) and '
           '(e in x.modified) == old(e in x.modified) and (e in x.deleted) == old(e in x.deleted) and '
-          '(e in x.bound) == old(e in x.bound)))',
+          '(e in x.bound) == old(e in x.bound) and (e in x.nonlocals) == old(e in x.nonlocals)))',
           'forall(lambda x, e: implies(not fresh(x) and x is not self.in_ and x is not self.out, '
           '(e in x) == old(e in x)), "Set[Any]", "Any")',
           'implies(not (truthy(result) and node in node.prev), LiveDom(self, node))',
